@@ -28,7 +28,7 @@ READ_OPS = ('getitem', 'getslice', 'find', 'rfind', 'findall', 'startswith', 'en
             'lshift', 'rshift', 'unpack', 'whole', 'pack', 'contains', 'iter')
 STREAM_OPS = ('read', 'peek', 'readlist', 'setpos')
 MUT_OPS = ('setitem', 'setslice', 'setslice_int', 'delitem', 'delslice', 'set', 'invert', 'insert', 'overwrite',
-           'append', 'prepend', 'reverse', 'byteswap', 'replace', 'ilshift', 'irshift', 'rol', 'ror', 'lazy_then')
+           'append', 'prepend', 'iadd', 'reverse', 'byteswap', 'replace', 'ilshift', 'irshift', 'rol', 'ror', 'lazy_then')
 
 
 def rev(s):
@@ -245,7 +245,7 @@ class ELsb0(Engine):
             ev['pos'] = g.pos(n)
             if cls == 'BitStream' and g.chance(0.2):
                 ev['pos'] = None
-        elif op in ('append', 'prepend'):
+        elif op in ('append', 'prepend', 'iadd'):
             ev['bs'], ev['bs_form'] = self._operand(g, n)
         elif op == 'reverse':
             ev.update(start=g.opt_pos(n), end=g.opt_pos(n))
@@ -415,6 +415,9 @@ class ELsb0(Engine):
             return getattr(x, op)(b, int(g('pos') or 0))
         if op in ('append', 'prepend'):
             return getattr(x, op)(self._bs(R, ev, 'bs', mirror))
+        if op == 'iadd':
+            x += self._bs(R, ev, 'bs', mirror)       # += is append()
+            return None
         if op == 'reverse':
             return x.reverse(g('start'), g('end'))
         if op == 'byteswap':
